@@ -222,6 +222,18 @@ def b_skeletons(tier, seed):
         for u2 in UNOPS:
             compare(b, f"{u}{u2}a", "a", fns)
             compare(b, f"{u}{u2}a ** b", "ab", fns)
+    # numeric literals as operands (the trees are built with the node classes' own operators, which treat constants specially)
+    for o1, o2 in itertools.product(BINOPS, repeat=2):
+        for pos in range(3):
+            ops = ["a", "b", "c"]
+            ops[pos] = "7"
+            compare(b, f"{ops[0]} {o1} {ops[1]} {o2} {ops[2]}", "".join(n for n in ops if n != "7"), fns, vals=small)
+    for u in UNOPS:
+        for o1 in BINOPS:
+            compare(b, f"{u}(7 {o1} a)", "a", fns)
+            compare(b, f"{u}(a {o1} 7)", "a", fns)
+            compare(b, f"b - (7 {o1} a)", "ab", fns, vals=small)
+            compare(b, f"b + {u}(0 {o1} a)", "ab", fns, vals=small)
     return b
 
 
